@@ -541,12 +541,12 @@ def main(tier, seed, only=None):
         for stride in (1, 5):
             shards.append(("walk", h, w, (None, None, None, None), 10 if tier == "quick" else 60, stride, start))
     # state families (no closure): blocks with holes and appendages; almost-rectangular big blocks with all seed pairs
-    for (h, w, max_app) in ([(3, 5, 3), (5, 3, 3), (4, 4, 3), (4, 5, 2)] if tier == "quick" else [(3, 5, 6), (5, 3, 6), (4, 4, 7), (4, 5, 4), (5, 4, 4), (5, 5, 3), (5, 6, 2), (3, 6, 4)]):
+    for (h, w, max_app) in ([(3, 5, 3), (5, 3, 3), (4, 4, 3), (4, 5, 2)] if tier == "quick" else [(3, 5, 5), (5, 3, 5), (4, 4, 5), (4, 5, 3), (5, 4, 3), (5, 5, 2), (3, 6, 4)]):
         n = len(hole_states(h, w, max_app))
         for lo in range(0, n, 60):
             shards.append(("holes", h, w, max_app, lo, lo + 60))
     for (h, w, positions) in ([(4, 4, ((0, 1), (1, 1), (0, 0))), (7, 8, ((0, 3),)), (7, 8, ((3, 3),)), (6, 9, ((5, 4),))] if tier == "quick" else
-                              [(4, 4, tuple((y, x) for y in range(4) for x in range(4)))] + [(7, 8, ((y, x),)) for y in range(0, 4) for x in range(0, 4)] + [(6, 9, ((5, 4),)), (8, 8, ((0, 4),)), (8, 8, ((4, 4),)), (5, 11, ((0, 5),)), (10, 6, ((4, 0),))]):
+                              [(4, 4, tuple((y, x) for y in range(4) for x in range(4)))] + [(7, 8, ((y, x),)) for (y, x) in ((0, 0), (0, 3), (1, 1), (3, 3), (3, 0), (2, 5))] + [(6, 9, ((5, 4),)), (8, 8, ((0, 4),)), (8, 8, ((4, 4),)), (5, 11, ((0, 5),)), (10, 6, ((4, 0),))]):
         shards.append(("notch", h, w, positions, 500 if (tier == "quick" and h * w > 20) else None))
     for (h, w) in ([(17, 17)] if tier == "quick" else [(17, 17), (16, 18), (20, 20)]):
         shards.append(("bighole", h, w))
